@@ -210,7 +210,12 @@ func (b *Buffer) ServeHTTP(w http.ResponseWriter, req *http.Request) {
 		if (b.retryPredicate == nil || attempt > DefaultMaxRetryAttempts) ||
 			!b.retryPredicate(&context{r: req, attempt: attempt, responseCode: bw.code}) {
 			utils.CopyHeaders(w.Header(), bw.Header())
-			w.WriteHeader(bw.code)
+			code := bw.code
+			if code == 0 {
+				// The handler wrote without choosing a status: same meaning as in net/http.
+				code = http.StatusOK
+			}
+			w.WriteHeader(code)
 			if reader != nil {
 				_, _ = io.Copy(w, reader)
 			}
